@@ -263,7 +263,11 @@ inline std::string tail_of_file(const std::string& path, size_t maxBytes) {
 }
 inline std::string head_of_file(const std::string& path, size_t maxBytes) {
   FILE* f = fopen(path.c_str(), "rb"); if (!f) return {};
-  std::string s(maxBytes, 0); auto r = fread(s.data(), 1, s.size(), f); s.resize(r); fclose(f); return s;
+  std::string s(maxBytes, 0); auto r = fread(s.data(), 1, s.size(), f); s.resize(r);
+  // long reports (deep stacks): append the tail as well, the sanitizer SUMMARY line is printed last
+  fseek(f, 0, SEEK_END); const long sz = ftell(f);
+  if (sz > static_cast<long>(maxBytes)) { const long from = std::max<long>(static_cast<long>(maxBytes), sz - 3000); fseek(f, from, SEEK_SET); std::string t(static_cast<size_t>(sz - from), 0); auto r2 = fread(t.data(), 1, t.size(), f); t.resize(r2); s += "\n...\n" + t; }
+  fclose(f); return s;
 }
 
 // Derive a stable failure signature from a dead worker's stderr + wait status.
@@ -484,7 +488,11 @@ struct Bfs {
             c.bfs_replay = replay_text(n.seed, n.hist, &op);
             c.begin(hd2);
             auto o2b = replay(sys, n);
+            // query - mutate - query: a Sys may ask for its (cheap) state battery to run on the SAME object right before and right
+            // after every transition, so that answers cached by a query and not invalidated by the operation are seen
+            if constexpr (requires { Sys::interleave_queries; }) { if (Sys::interleave_queries) sys.check_state(*o2b, c, hd); }
             sys.apply(*o2b, op, &c, hd2);
+            if constexpr (requires { Sys::interleave_queries; }) { if (Sys::interleave_queries) { sys.check_state(*o2b, c, hd2); c.rep.count("interleaved_query_batteries"); } }
             Hash128 k2 = hash_of(sys.key(*o2b));
             c.rep.count("transitions");
             if (!(k2 == n.key)) c.rep.count("transitions_changing_state");
